@@ -7,7 +7,7 @@
      "str": e = any string over Alpha2 up to MaxStr bytes (mostly malformed). *)
 EXTENDS Chunked, TLC, FiniteSets
 CONSTANTS Family, MaxBody, Alpha, NExt1, NExt2, MaxStr, Alpha2
-VARIABLES part, e
+VARIABLES slot, go, e
 
 Exts == << <<>>,
            <<59, 97>>,                                 \* ;a
@@ -50,8 +50,8 @@ Domain == IF Family = "enc"
                          b \in Bodies, k \in SUBSET {1, 2, 10}, x1 \in 1..NExt1, x2 \in 1..NExt2, t \in 1..Len(Trailers), p \in 0..2} : EncOk(d)}
           ELSE StrDomain
 None == "none"
-Init == part \in 0..(NParts - 1) /\ e = None
-Next == e = None /\ e' \in {d \in Domain : Part(d) = part} /\ part' = part
+Init == slot \in 0..(NParts - 1) /\ go = FALSE /\ e = None
+Next == ~go /\ go' = TRUE /\ e' \in {d \in Domain : Part(d) = slot} /\ slot' = slot
 
 Modes == {Strict, Tolerant(0), Tolerant(1)}
 Caps == {1, 2, Unlimited}
@@ -71,8 +71,7 @@ EncLaws ==
   /\ \A k \in 0..n : \A cap \in Caps :
        Result(Rounds(w, n, Rounds(w, k, Init0, cap, Strict), cap, Strict)) = want
 
-\* laws over arbitrary strings: verdicts are stable under extension, the offending byte is where the verdict appears,
-\* schedules do not matter, and the grammars are ordered Strict <= Tolerant
+\* laws over arbitrary strings: verdicts are stable under extension, schedules do not matter, and the grammars are ordered Strict <= Tolerant
 Same(a, b) == a.oc = b.oc /\ a.out = b.out /\ (a.oc = "Done" => a.used = b.used) /\ (a.oc = "Reject" => a.at = b.at)
 StrLaws ==
   LET w == e
@@ -82,9 +81,7 @@ StrLaws ==
        /\ \A k \in 0..n :
             LET part == Dec(w, k, T) IN
             /\ part.oc = "Done" => Same(part, whole)
-            /\ part.oc = "Reject" => whole.oc = "Reject" /\ whole.at = part.at /\ part.at <= k
-            /\ (whole.oc = "Reject" /\ k >= whole.at) => part.oc = "Reject"
-            /\ (whole.oc = "Reject" /\ k < whole.at) => part.oc = "NeedMore"
+            /\ part.oc = "Reject" => whole.oc = "Reject" /\ part.at <= k      \* a refusal is final and blames a delivered byte
             /\ IsPrefix(part.out, whole.out)
        /\ \A k \in 0..n : \A cap \in Caps :
             Same(Result(Rounds(w, n, Rounds(w, k, Init0, cap, T), cap, T)), whole)
@@ -96,5 +93,5 @@ StrLaws ==
        /\ t.oc = "Reject" => s.oc = "Reject" /\ s.at <= t.at
        /\ IsPrefix(s.out, t.out)
 
-Laws == e # None => IF Family = "enc" THEN EncLaws ELSE StrLaws
+Laws == go => IF Family = "enc" THEN EncLaws ELSE StrLaws
 ====
